@@ -21,10 +21,16 @@ import (
 	"verif.local/vk"
 )
 
-type vkTicker struct{ c chan time.Time }
+// vkTicker: the harness feeds ticks through an unbuffered channel; Stop closes the channel, as the
+// repository's own timex.FakeTicker does (a wheel that keeps selecting on its ticker after Stop would
+// see phantom ticks).
+type vkTicker struct {
+	c    chan time.Time
+	once sync.Once
+}
 
 func (t *vkTicker) Chan() <-chan time.Time { return t.c }
-func (t *vkTicker) Stop()                  {}
+func (t *vkTicker) Stop()                  { t.once.Do(func() { close(t.c) }) }
 
 type c10Op struct {
 	Op string `json:"op"` // set move remove tick drain stop badset badmove badremove
@@ -34,8 +40,9 @@ type c10Op struct {
 }
 
 type c10Scenario struct {
-	Slots int     `json:"slots"`
-	Ops   []c10Op `json:"ops"`
+	Slots      int     `json:"slots"`
+	IntervalNs int64   `json:"interval_ns,omitempty"` // 0 = one second
+	Ops        []c10Op `json:"ops"`
 }
 
 type c10Fire struct {
@@ -53,7 +60,11 @@ type c10Wheel struct {
 	baseline int
 }
 
-const c10Interval = time.Second
+// c10Interval is the tick interval of the scenario being run (set by runC10 from the scenario).
+var c10Interval = time.Second
+
+// intervals that are, and are not, exactly representable in binary fractions of a second
+var c10Intervals = []int64{int64(time.Second), int64(100 * time.Millisecond), int64(10 * time.Millisecond), int64(100 * time.Microsecond), int64(7 * time.Millisecond), int64(time.Minute), 1, int64(3 * time.Second), int64(time.Second)}
 
 // c10Floor is the goroutine count of the idle test process (no wheel alive).
 var c10Floor int
@@ -130,6 +141,10 @@ func c10Delay(d int64) time.Duration { return time.Duration(d) * c10Interval / 1
 // the number of fire events observed.
 func runC10(m *vk.M, idx int, sc c10Scenario) (fires int, ok bool) {
 	desc := func() string { return fmt.Sprintf("case=%d;%s", idx, vk.JSON(sc)) }
+	c10Interval = time.Second
+	if sc.IntervalNs > 0 {
+		c10Interval = time.Duration(sc.IntervalNs)
+	}
 	w, err := newC10Wheel(sc.Slots)
 	if err != nil {
 		m.Inconclusive("case %d: %v", idx, err)
@@ -367,7 +382,7 @@ func TestVerifC10Systematic(t *testing.T) {
 							for i := 0; i < d2+slots+1; i++ {
 								ops = append(ops, c10Op{Op: "tick"})
 							}
-							sc := c10Scenario{Slots: slots, Ops: ops}
+							sc := c10Scenario{Slots: slots, IntervalNs: c10Intervals[idx%len(c10Intervals)], Ops: ops}
 							f, ok := runC10(m, idx, sc)
 							if !ok {
 								return
@@ -442,7 +457,7 @@ func c10RandomScenario(r interface{ Intn(int) int }, slotsChoices []int) c10Scen
 			ops = append(ops, c10Op{Op: "tick"})
 		}
 	}
-	return c10Scenario{Slots: slots, Ops: ops}
+	return c10Scenario{Slots: slots, IntervalNs: c10Intervals[r.Intn(len(c10Intervals))], Ops: ops}
 }
 
 // TestVerifC10Random: seeded random histories incl. multi-revolution delays,
@@ -587,7 +602,7 @@ func TestVerifC10LongHistory(t *testing.T) {
 		if !m.Only(300000 + idx) {
 			continue
 		}
-		sc := c10Scenario{Slots: slots, Ops: ops}
+		sc := c10Scenario{Slots: slots, IntervalNs: c10Intervals[r.Intn(len(c10Intervals))], Ops: ops}
 		f, ok := runC10(m, 300000+idx, sc)
 		if !ok {
 			return
